@@ -15,9 +15,70 @@ func h01Word(i int) uint32 {
 	return uint32(vTapeByte(4*i))<<24 | uint32(vTapeByte(4*i+1))<<16 | uint32(vTapeByte(4*i+2))<<8 | uint32(vTapeByte(4*i+3))
 }
 
+// The three classical exactly-uniform rejection samplers over a 32-bit word.
+// Each rejects exactly 2^32 mod n of the 2^32 raw words (the minimum that makes
+// the rest divisible among n alternatives), so more than half are accepted,
+// and each has its counting lemma in H01L:
+//
+//	famHigh  accept w <  2^32 - 2^32 mod n, result w mod n         (the pinned code)
+//	famLow   accept w >= 2^32 mod n,        result w mod n         (arc4random_uniform)
+//	famMul   accept lo32(w*n) >= 2^32 mod n, result hi32(w*n)      (Lemire's multiply-shift)
+//
+// Which one the code under test follows is read off two concrete probe draws
+// with n = 3 (raw words 0 and 5 are scripted): famHigh accepts 0 and returns
+// 0; the other two reject 0 and accept 5, returning 5 mod 3 = 2 and
+// hi32(15) = 0. The probes only select the oracle; the symbolic obligations
+// below are then asserted for every n and every raw word, so a kernel that
+// follows none of the three fails them whatever the probes said.
+const (
+	famHigh = 0
+	famLow  = 1
+	famMul  = 2
+)
+
+func h01Family() (fam int, baseWords int) {
+	vTapeScript(0, 5)
+	var p uint32
+	before := vReads()
+	panicked := vTry(func() { p = randomUint32n(3) })
+	used := vReads() - before
+	vTapeScriptEnd()
+	fam = famHigh
+	if !panicked && used == 2 {
+		if p == 2 {
+			fam = famLow
+		} else if p == 0 {
+			fam = famMul
+		}
+	}
+	vNote("sampler-family", fam)
+	return fam, vTapeLen() / 4
+}
+
+// h01Accepts and h01Result are the oracle of family fam for bound n and raw
+// word w; t = 2^32 mod n.
+func h01Accepts(fam int, n uint32, w uint32, T uint64) bool {
+	t := (uint64(1) << 32) % uint64(n)
+	switch fam {
+	case famLow:
+		return uint64(w) >= t
+	case famMul:
+		return (uint64(w)*uint64(n))&0xFFFFFFFF >= t
+	}
+	return uint64(w) < T
+}
+
+func h01Result(fam int, n uint32, w uint32) uint32 {
+	if fam == famMul {
+		return uint32((uint64(w) * uint64(n)) >> 32)
+	}
+	return w % n
+}
+
 // H01: symbolic n over [1,2^32) that is not a power of two; one path per number
 // of rejected words (bounded by the unwinding bound of the harness).
 func H01() {
+	fam, base := h01Family()
 	n := vU32("n")
 	vAssume(n >= 1)
 	vAssume(n&(n-1) != 0)
@@ -36,21 +97,25 @@ func H01() {
 	vAssert(T == closed, "lemma: the largest multiple of n not exceeding 2^32-1 is 2^32-1 - (2^32-1) mod n")
 	closed64 := (uint64(1) << 32) - (uint64(1)<<32)%uint64(n)
 	vAssert(T == closed64, "lemma: for a bound that does not divide 2^32 it is also 2^32 - 2^32 mod n")
+	// Lemma: the 32-bit idiom -n % n is 2^32 mod n (the form in which the low
+	// rejecting and the multiply-shift samplers compute their threshold).
+	vAssert(uint64(-n%n) == (uint64(1)<<32)%uint64(n), "lemma: -n mod n in 32-bit arithmetic is 2^32 mod n")
 
 	var r uint32
+	before := vReads()
 	panicked := vTry(func() { r = randomUint32n(n) })
 	vAssert(!panicked, "randomUint32n panicked for a bound n >= 1")
-	k := vReads()
+	k := vReads() - before
 	vNote("reads", k)
 	vSample("reads", k)
 	vReach("returned")
-	vAssert(vTapeLen() == 4*k, "a raw word does not consume exactly four fresh source bytes")
+	vAssert(vTapeLen() == 4*(base+k), "a raw word does not consume exactly four fresh source bytes")
 	for i := 0; i < k-1; i++ {
-		vAssert(uint64(h01Word(i)) >= T, "a raw word below the threshold (an unbiased value) was rejected")
+		vAssert(!h01Accepts(fam, n, h01Word(base+i), T), "a raw word that introduces no bias was rejected (more words are discarded than the 2^32 mod n that must be)")
 	}
-	w := h01Word(k - 1)
-	vAssert(uint64(w) < T, "a raw word at or above the largest multiple of n was accepted (modulo bias)")
-	vAssert(r == w%n, "the result is not the residue of the accepted raw word")
+	w := h01Word(base + k - 1)
+	vAssert(h01Accepts(fam, n, w, T), "a raw word that has to be discarded was accepted (modulo bias: the accepted words do not divide evenly among the n alternatives)")
+	vAssert(r == h01Result(fam, n, w), "the result is not the alternative that the accepted raw word selects (residue, or high word of the product)")
 	vAssert(r < n, "result outside [0,n)")
 	if k > 1 {
 		vReach("after-rejection")
@@ -82,20 +147,88 @@ func H01L() {
 	vReach("lemmas")
 }
 
+// H01LB: the counting lemma of the low-rejecting sampler (accept w >= t,
+// t = 2^32 mod n, result w mod n): with 2^32 = q*n + t, the accepted words of
+// residue rho are rho + k*n for exactly q consecutive k (from 0 when rho >= t,
+// from 1 when rho < t), so every residue has q accepted words, q*n in all,
+// more than half of the 2^32.
+func H01LB() {
+	vUseInt(true)
+	n32 := vU32("n")
+	vAssume(n32 >= 1)
+	n := uint64(n32)
+	t := vU64("t")
+	q := vU64("q")
+	vAssume(t < n)
+	vAssume(q <= 1<<32)
+	vAssume(q*n+t == 1<<32)
+	vAssert(t == (uint64(1)<<32)%n, "q*n + t = 2^32 with t < n does not make t the remainder")
+	vAssert(q*n > 1<<31, "low rejection: no more than half of the raw words are accepted")
+	rho := vU64("rho")
+	k := vU64("k")
+	vAssume(rho < n)
+	vAssume(k < 1<<32)
+	var k0 uint64
+	if rho < t {
+		k0 = 1
+	}
+	v := rho + k*n
+	inBlock := k >= k0
+	if k >= k0+q {
+		inBlock = false
+	}
+	accepted := v >= t
+	if v >= 1<<32 {
+		accepted = false
+	}
+	vAssert(inBlock == accepted, "counting (low rejection): the accepted words of residue rho are not rho + k*n for exactly q consecutive k")
+	vReach("lemmas")
+}
+
+// H01LC: the counting lemma of the multiply-shift sampler (accept
+// lo32(w*n) >= t, result hi32(w*n)): the accepted words with result r are the
+// w whose product w*n lies in [r*2^32+t, (r+1)*2^32), an interval of length
+// q*n, and any interval of that length holds exactly q multiples of n - the q
+// consecutive words starting at ceil((r*2^32+t)/n).
+func H01LC() {
+	vUseInt(true)
+	n32 := vU32("n")
+	vAssume(n32 >= 1)
+	n := uint64(n32)
+	t := (uint64(1) << 32) % n
+	q := (uint64(1) << 32) / n
+	r := vU64("r")
+	vAssume(r < n)
+	a := r<<32 + t
+	c := (a + n - 1) / n
+	j := vU64("j")
+	vAssume(j < q)
+	w := c + j
+	m := w * n
+	vAssert(w < 1<<32 && m>>32 == r && m&0xFFFFFFFF >= t, "counting (multiply-shift): the j-th word from ceil((r*2^32+t)/n) is not an accepted word with result r")
+	x := vU64("x")
+	vAssume(x < 1<<32)
+	mx := x * n
+	vAssume(mx>>32 == r && mx&0xFFFFFFFF >= t)
+	vAssert(x >= c && x-c < q, "counting (multiply-shift): an accepted word with result r is not among the q consecutive words from ceil((r*2^32+t)/n)")
+	vReach("lemmas")
+}
+
 // H01P: the 32 power-of-two bounds, concrete n = 2^j: one read, no rejection,
 // result = w mod n; n divides 2^32 so each residue has exactly 2^32/n preimages.
 func H01P() {
 	// the source may legally deliver fewer bytes than asked for on a single
 	// Read call; the kernel must still see whole, fresh words
+	fam, base := h01Family()
 	vShortReads(true)
 	j := vLen("j", 0, 31)
 	n := uint32(1) << uint(j)
 	var r uint32
 	panicked := vTry(func() { r = randomUint32n(n) })
 	vAssert(!panicked, "randomUint32n panicked for a power-of-two bound")
-	vAssert(vTapeLen() == 4, "a raw word is not built from exactly four fresh source bytes (a power-of-two bound needs one word, none may be rejected)")
-	w := h01Word(0)
-	vAssert(r == w%n, "the result is not the residue of the raw word")
+	vAssert(vTapeLen() == 4*base+4, "a raw word is not built from exactly four fresh source bytes (a power-of-two bound needs one word, none may be rejected)")
+	w := h01Word(base)
+	vAssert(r == h01Result(fam, n, w), "the result is not the alternative the raw word selects (its residue, or the high word of the product)")
 	vAssert(r < n, "result outside [0,n)")
 	vReach("returned")
 }
